@@ -4,6 +4,7 @@ package main
 
 import (
 	"fmt"
+	"go/token"
 	"sort"
 	"strings"
 
@@ -114,19 +115,18 @@ func findDecision(r *Run, rule string) *decisionSite {
 
 // definedUnderUpToDate reports whether every non-nil value that can reach v is assigned under the
 // fact IsReplicaSetUpToDate(...)==true (the assignment edge is examined, not only the defining
-// block of the assigned value).
-func definedUnderUpToDate(ff *FuncFacts, v ssa.Value) bool {
-	return assignedOnlyUnder(ff, v, func(c ssa.Value, _ string) bool {
+// block of the assigned value; results of repository helpers are followed into the helper).
+func definedUnderUpToDate(p *Prog, fn *ssa.Function, v ssa.Value) bool {
+	return p.assignedOnlyUnderIP(fn, v, func(c ssa.Value, _ string) bool {
 		_, ok := isCallTo(c, pkgComparison+".IsReplicaSetUpToDate")
 		return ok
-	})
+	}, 0)
 }
 
 // assignRoles determines which parameter of the decision function is the daemonset, the active
 // and the up-to-date replica set from the provenance of the call's arguments.
 func assignRoles(r *Run, rule string, s *decisionSite) bool {
 	s.roles = map[string]*ssa.Parameter{}
-	ff := computeFacts(s.caller)
 	var ersParams []*ssa.Parameter
 	for i, p := range s.decision.Params {
 		switch {
@@ -134,7 +134,7 @@ func assignRoles(r *Run, rule string, s *decisionSite) bool {
 			s.roles["daemonset"] = p
 		case isPtrToNamed(p.Type(), pkgAPI, "ExtendedDaemonSetReplicaSet"):
 			ersParams = append(ersParams, p)
-			if definedUnderUpToDate(ff, s.call.Call.Args[i]) {
+			if definedUnderUpToDate(r.Prog, s.caller, s.call.Call.Args[i]) {
 				s.roles["upToDate"] = p
 			}
 		case typeName(p.Type()) == "time.Time":
@@ -145,9 +145,9 @@ func assignRoles(r *Run, rule string, s *decisionSite) bool {
 		if p != s.roles["upToDate"] {
 			// the active one is selected under `rs.Name == instance.Status.ActiveReplicaSet`
 			i := paramIndex(p)
-			under := assignedOnlyUnder(ff, s.call.Call.Args[i], func(c ssa.Value, _ string) bool {
+			under := r.Prog.assignedOnlyUnderIP(s.caller, s.call.Call.Args[i], func(c ssa.Value, _ string) bool {
 				return isEqCompare(c, loadOfPath(nil, "Name"), loadOfPath(nil, "Status", "ActiveReplicaSet"))
-			})
+			}, 0)
 			if under {
 				s.roles["active"] = p
 			}
@@ -336,33 +336,49 @@ func c05Ended(r *Run) {
 		specNil := p.Has(true, func(v ssa.Value, _ string) bool { return isNilCompareOf(v, isSpec) })
 		durNil := p.Has(true, func(v ssa.Value, _ string) bool { return isNilCompareOf(v, loadOfPath(isSpec, "Duration")) })
 		construct := fmt.Sprintf("return %v on path [%s]", res.Name(), shortFacts(p))
+		var pend ssa.Value
 		if !isConst {
-			r.Undecided("C05.R2", construct, pos, shortFunc(fn), "first result is not a boolean constant on this path")
-			continue
+			// `return pending < 0, pending`: the result is true exactly when the pending duration is negative
+			if bo, isB := res.(*ssa.BinOp); isB {
+				if z, okz := constInt(bo.Y); okz && z == 0 && bo.Op == token.LSS {
+					pend = bo.X
+				} else if z, okz := constInt(bo.X); okz && z == 0 && bo.Op == token.GTR {
+					pend = bo.Y
+				}
+			}
+			if pend == nil {
+				r.Undecided("C05.R2", construct, pos, shortFunc(fn), "first result is neither a boolean constant nor the comparison `pending < 0` on this path")
+				continue
+			}
+			if durNil && !specNil {
+				r.Check("C05.R2", construct, pos, shortFunc(fn), "Duration==nil (manual mode) never ends by time", false, "a computed result is returned on a path with Duration==nil")
+				continue
+			}
 		}
-		if durNil && !specNil {
+		if isConst && durNil && !specNil {
 			r.Check("C05.R2", construct, pos, shortFunc(fn), "Duration==nil (manual mode) never ends by time", !b, "path facts: "+shortFacts(p))
 			continue
 		}
-		if !b {
+		if isConst && !b {
 			o := r.Check("C05.R2", construct, pos, shortFunc(fn), "returning false is always allowed", true, "")
 			o.Trivial = true
 			continue
 		}
-		if specNil {
+		if isConst && specNil {
 			r.Check("C05.R2", construct, pos, shortFunc(fn), "true without a canary spec", true, "specCanary==nil")
 			continue
 		}
-		// need fact X<0 true, with X the max of a duration term and a no-restart term on this path.
-		var pend ssa.Value
-		for _, f := range p.Facts {
-			if bo, isB := f.V.(*ssa.BinOp); isB && f.Pol == strings.HasSuffix(f.Key, "<c:0)") {
-				if strings.HasSuffix(f.Key, "<c:0)") {
-					// key is (X<0) with polarity true
-					if z, okz := constInt(bo.Y); okz && z == 0 {
-						pend = bo.X
-					} else if z, okz := constInt(bo.X); okz && z == 0 {
-						pend = bo.Y
+		// need fact X<0 true (constant true result), with X the max of a duration term and a no-restart term on this path.
+		if pend == nil {
+			for _, f := range p.Facts {
+				if bo, isB := f.V.(*ssa.BinOp); isB && f.Pol == strings.HasSuffix(f.Key, "<c:0)") {
+					if strings.HasSuffix(f.Key, "<c:0)") {
+						// key is (X<0) with polarity true
+						if z, okz := constInt(bo.Y); okz && z == 0 {
+							pend = bo.X
+						} else if z, okz := constInt(bo.X); okz && z == 0 {
+							pend = bo.Y
+						}
 					}
 				}
 			}
@@ -373,8 +389,17 @@ func c05Ended(r *Run) {
 		}
 		chosen := p.ResolveOnce(pend)
 		var cands []ssa.Value
+		isMaxBuiltin := false
 		if phi, isPhi := pend.(*ssa.Phi); isPhi {
 			cands = phi.Edges
+		} else if mc, isC := pend.(*ssa.Call); isC {
+			if bi, isBi := mc.Call.Value.(*ssa.Builtin); isBi && bi.Name() == "max" {
+				isMaxBuiltin = true
+				cands = append(cands, mc.Call.Args...)
+				chosen = nil
+			} else {
+				cands = []ssa.Value{pend}
+			}
 		} else {
 			cands = []ssa.Value{pend}
 		}
@@ -390,7 +415,7 @@ func c05Ended(r *Run) {
 		okMax := true
 		why := ""
 		for _, c := range cands {
-			if c == chosen {
+			if c == chosen || isMaxBuiltin {
 				continue
 			}
 			// chosen must be >= c on this path: fact (chosen<c)=false or (c<chosen)=true
